@@ -274,11 +274,11 @@ func bindsTerm(a *abs, params []azcosmos.QueryParameter) string {
 		case int:
 			val = core.App("PV", core.N(statusN(int64(v))))
 		case []uuid.UUID:
-			xs := make([]string, len(v))
+			xs := make([]int, len(v))
 			for i, u := range v {
-				xs[i] = core.N(uint64(a.id(u)))
+				xs[i] = a.id(u)
 			}
-			val = core.App("PVs", core.List(xs))
+			val = core.App("PVs", nlist(xs))
 		}
 		named = append(named, core.Pair(name, val))
 	}
